@@ -314,6 +314,8 @@ ProjWhy(D, m, X, Q, pe) ==
   ELSE IF ~ZRowsOk(D, m, X, pe.z) THEN "predict(training)"
   ELSE IF ~ZRowsOk(D, m, X, pe.zt) THEN "transform(training)"
   ELSE IF ~ZRowsOk(D, m, Q, pe.zq) THEN "predict(probe)"
+  ELSE IF ~ZRowsOk(D, m, X, pe.zi) THEN "inplace(garbage-buffer)"     \* the in-place form overwrites its buffer
+  ELSE IF ~ZRowsOk(D, m, Q, pe.zqi) THEN "inplace(reused-buffer)"
   ELSE IF Len(X) = D.n /\ ~ZCovOk(D, m, pe.z) THEN "covariance-of-projection"   \* needs all training rows
   ELSE "ok"
 
@@ -441,7 +443,10 @@ AnsProj(p, amp, off, k, wh, ord, ptag) ==
       X == DataX(p, amp, off)
       z == [r \in 1..NNp(p) |-> [i \in 1..k |-> zr([j \in 1..p |-> X[r][j] - off[j] + sh[j]], i)]]
       zq == << [i \in 1..k |-> zr([j \in 1..p |-> ProbeD(p)[j] + sh[j]], i)] >>
-  IN [z |-> z, zt |-> z, zq |-> zq, fin |-> TRUE]
+  IN [z |-> z, zt |-> z, zq |-> zq, fin |-> TRUE,
+      \* "accumulate": the in-place form adds to what the buffer held (garbage 1000.5 + 3r - c ; its own previous result)
+      zi |-> IF ptag = "accumulate" THEN [r \in 1..NNp(p) |-> [i \in 1..k |-> z[r][i] + 10005000 + 30000 * (r - 1) - 10000 * (i - 1)]] ELSE z,
+      zqi |-> IF ptag = "accumulate" THEN << [i \in 1..k |-> 2 * zq[1][i]] >> ELSE zq]
 
 AnsInv(p, amp, off, k, wh, ord, itag) ==
   LET qn == QN(p)
@@ -480,7 +485,7 @@ AnswerFit ==
 
 AnswerProj ==
   /\ st.ph = "fit" /\ st.tag = "correct"
-  /\ \E ptag \in {"correct", "nocentre"} :
+  /\ \E ptag \in {"correct", "nocentre", "accumulate"} :
         LET X == DataX(st.p, st.amp, st.off)
             D == Summary(X, st.p)
             m == Model(D, st.k, st.wh, AnsFit(st.p, st.amp, st.off, st.k, st.wh, st.ord, "correct"))
@@ -488,7 +493,7 @@ AnswerProj ==
         IN st' = [ph |-> "proj", p |-> st.p, amp |-> st.amp, off |-> st.off, k |-> st.k, wh |-> st.wh, tag |-> ptag,
                   ord |-> st.ord,
                   why |-> ProjWhy(D, m, X, Q, AnsProj(st.p, st.amp, st.off, st.k, st.wh, st.ord, ptag)),
-                  want |-> (ptag = "correct" \/ \A i \in 1..st.k : Dot(st.off, QQ(st.p)[st.ord[i]]) = 0)]
+                  want |-> (ptag = "correct" \/ (ptag = "nocentre" /\ \A i \in 1..st.k : Dot(st.off, QQ(st.p)[st.ord[i]]) = 0))]
 
 AnswerInv ==
   /\ st.ph = "proj" /\ st.tag = "correct"
